@@ -1,11 +1,27 @@
 """Encoder correspondence: the executable encoder + cache model (coq/Async/Encoder.v)
-run on the encode requests and trail events of a real synchronous solve must
+run on the encode requests, future completions and trail events of a real solve must
 produce the same clause database (order and content) and the same provider-call
 sequence as the implementation; for runs that returned a solution the checks of
 check_encoder_final must hold (requests only for true variables, events leave the
 dumped trail, everything selected was encoded)."""
 import vlib
 from props import solverstream as ss
+
+
+def _so(x):
+    return 0 if x is None else x + 1
+
+
+def tok_task(t):
+    if "dep" in t:
+        return [0, _so(t["dep"])]
+    if "cand" in t:
+        return [1, t["cand"]]
+    if "req" in t:
+        so, is_union, i = t["req"]
+        return [2, _so(so)] + vlib.tok_req({"u": i} if is_union else {"s": i})
+    so, v = t["con"]
+    return [3, _so(so), v]
 
 
 def tok_sevs(events):
@@ -23,6 +39,8 @@ def tok_sevs(events):
             out.append([0, len(e["enc"])] + [0 if x is None else x + 1 for x in e["enc"]])
         elif "sreg" in e:
             out.append([1, e["sreg"]])
+        elif "done" in e:
+            out.append([3] + tok_task(e["done"]))
     t = [len(out)]
     for o in out:
         t += o
@@ -52,12 +70,16 @@ def is_sync(r):
     return "/sync/" in ("/" + r.get("stream", "") + "/")
 
 
+FIELDS_SYNC = ("db", "calls", "done", "fifo", "req_true", "trail", "final")
+FIELDS_ASYNC = ("db", "calls_perm", "done", "req_true", "trail", "final")
+
+
 def annotate(recs):
     """Adds r['enc'] = {db, calls, req_true, trail, final, n_db, n_calls} for sync records with a dump."""
     lines = []
     for i, r in enumerate(recs):
         d = r["obs"].get("dump")
-        if d is None or not is_sync(r):
+        if d is None:
             continue
         k = ss.outcome_kind(r["obs"]["outcome"])
         if k not in ("sat", "unsat"):
@@ -78,14 +100,24 @@ def annotate(recs):
             r["enc"] = {"error": v}
             continue
         t = v.split()
-        r["enc"] = {"db": t[0] == "1", "calls": t[1] == "1", "req_true": t[2] == "1", "trail": t[3] == "1",
-                    "final": t[4] == "1", "n_db": int(t[5]), "n_calls": int(t[6])}
+        r["enc"] = {"db": t[0] == "1", "calls": t[1] == "1", "calls_perm": t[2] == "1", "done": t[3] == "1",
+                    "fifo": t[4] == "1", "req_true": t[5] == "1", "trail": t[6] == "1", "final": t[7] == "1",
+                    "n_db": int(t[8]), "n_calls": int(t[9]), "sync": is_sync(r)}
     return recs
 
 
-def ok(r, fields=("db", "calls", "req_true", "trail", "final")):
+def ok(r, fields=None):
+    """fields: subset to require; call order and FIFO completion are only required of synchronous runs."""
     e = r.get("enc")
-    return e is None or all(e.get(f) for f in fields)
+    if e is None:
+        return True
+    if "error" in e:
+        return False
+    allowed = FIELDS_SYNC if e.get("sync") else FIELDS_ASYNC
+    want = [f for f in (fields or allowed)]
+    if not e.get("sync"):
+        want = ["calls_perm" if f == "calls" else f for f in want if f != "fifo"]
+    return all(e.get(f) for f in want)
 
 
 def replay(r):
